@@ -73,7 +73,7 @@ type gen struct {
 }
 
 func newGen(seed int64, maxDepth int) *gen {
-	g := &gen{r: rand.New(rand.NewSource(seed)), maxDep: maxDepth}
+	g := &gen{r: rand.New(rand.NewSource(seed)), maxDep: maxDepth, avoidKnown: true}
 	for _, t := range entTypes {
 		for _, id := range entIDs {
 			g.uids = append(g.uids, types.NewEntityUID(types.EntityType(t), types.String(id)))
